@@ -141,11 +141,20 @@ def ob_lattice():
                 ok = False
             if ok != spec_cast(t, d): bad.append({'case': f'({nm}) is {d}', 'accepted': ok, 'rule_says': spec_cast(t, d)})
     # evaluate() of arithmetic sets shrinkable iff all operands coerce to byte
-    for l, r in itertools.product(['lit', 'bytevar', 'intvar'], repeat=2):
-        mk = {'lit': lambda: ast.IntValue(3, SPAN), 'bytevar': lambda: Plain.make(DT.BYTE), 'intvar': lambda: Plain.make(DT.INT)}
-        e = ast.Add(SPAN, mk[l](), mk[r]()).evaluate(None)
-        want = 'intvar' not in (l, r)
-        if bool(e.coercible(DT.BYTE)) != want: bad.append({'case': f'{l} + {r} coerces to byte', 'coercible': bool(e.coercible(DT.BYTE)), 'rule_says': want})
+    mk = {'lit': lambda: ast.IntValue(3, SPAN), 'bytelit': lambda: ast.ByteValue(7, SPAN), 'bytevar': lambda: Plain.make(DT.BYTE), 'intvar': lambda: Plain.make(DT.INT),
+          'substituted-const': lambda: ast.IntValue(5, SPAN, shrinkable=False), 'explicit-int': lambda: ast.ByteValue(9, SPAN).cast(DT.INT)}
+    byte_ok = {'lit', 'bytelit', 'bytevar'}
+    for cls in ('Add', 'Sub', 'Mul', 'Div', 'Mod'):
+        for l, r in itertools.product(mk, repeat=2):
+            e = getattr(ast, cls)(SPAN, mk[l](), mk[r]()).evaluate(None)       # folds when both are constants
+            want = l in byte_ok and r in byte_ok
+            if bool(e.coercible(DT.BYTE)) != want:
+                bad.append({'case': f'({l} {cls} {r}) coerces to byte', 'coercible': bool(e.coercible(DT.BYTE)), 'rule_says': want, 'folded': type(e).__name__})
+    for cls in ('Neg', 'Pos'):
+        for l in mk:
+            e = getattr(ast, cls)(SPAN, mk[l]()).evaluate(None)
+            if bool(e.coercible(DT.BYTE)) != (l in byte_ok):
+                bad.append({'case': f'({cls} {l}) coerces to byte', 'coercible': bool(e.coercible(DT.BYTE)), 'rule_says': l in byte_ok})
     res.append(result('C07/lattice/literals-and-arithmetic', bad, t0,
                       'numeric literals (and arithmetic whose operands all coerce to byte) coerce to byte; substituted constants and explicit `is int` do not; casts as for their type',
                       len(lits) * len(types) + 9, ['hidc.ast.expressions.IntValue.coercible', 'hidc.ast.expressions.IntValue.coerce', 'hidc.ast.expressions.IntValue.cast',
